@@ -417,6 +417,29 @@ async def run_session(ctx, idx) -> None:
                 writes.append((a, i, gen_value(rng)))
             want = {"characteristics": [{"aid": a, "iid": i, "value": v} for a, i, v in writes]}
             await s.call(f"put_characteristics({n})", p.put_characteristics(writes), expect_one("PUT", "/characteristics", None, JSON_CT, json_obj=want, char_payload=True))
+        # a write that names an accessory the local database does not have (a bridge gained one, the copy is older): what goes
+        # out is the request the caller asked for - every entry, in order - or nothing at all (the call fails); never a
+        # request with entries silently left out
+        def all_or_nothing(want):
+            def expect(reqs, result):
+                if not reqs:
+                    return [] if isinstance(result, Exception) else ["no request was sent, yet the call returned normally"]
+                if len(reqs) != 1:
+                    return [f"{len(reqs)} requests"]
+                try:
+                    got = json.loads(reqs[0]["body"].decode())
+                except Exception as ex:  # noqa: BLE001
+                    return [f"body is not JSON: {ex!r}"]
+                return [] if got == want else [f"request body {str(got)[:200]} differs from what the caller asked to write {str(want)[:200]}"]
+
+            return expect
+
+        for k in range(ctx.pick(6, 30)):
+            writes = [(rng.choice([1, 2, 3]), rng.choice([9, 10, 12]), gen_value(rng)) for _ in range(rng.choice([0, 1, 2]))]
+            writes.insert(rng.randint(0, len(writes)), (rng.choice([7, 40, 99]), rng.choice([9, 10]), gen_value(rng)))
+            want = {"characteristics": [{"aid": a, "iid": i, "value": v} for a, i, v in writes]}
+            await s.call(f"put_characteristics-unknown-accessory({len(writes)})", p.put_characteristics(writes), all_or_nothing(want))
+            ctx.count("writes_naming_unknown_accessories")
         for k in range(ctx.pick(6, 40)):
             n = rng.choice([1, 2, 3, 6])
             ids = sorted({(rng.randint(1, 3), rng.choice([9, 10, 13])) for _ in range(n)})
